@@ -21,6 +21,7 @@ acquisition with a timeout costs four times an untimed one, hence the separate w
 
 Worker threads are pooled per process (creating threads costs more than an execution).
 """
+import os
 import threading
 import time
 from _thread import allocate_lock, get_ident
@@ -57,6 +58,7 @@ class _Pool:
         self.workers = []
         self.ident = {}
         self.broken = False
+        self.pid = os.getpid()
 
     def ensure(self, n):
         while len(self.workers) < n:
@@ -88,9 +90,20 @@ _TICKS = [0]  # scheduling steps performed in this process
 _MONITOR = [None]
 
 
+def _forget_pool_after_fork():
+    # threads do not survive fork(): a pool inherited from the parent process has no workers behind it
+    global _POOL
+    _POOL = None
+    _ACTIVE[0] = None
+    _MONITOR[0] = None
+
+
+os.register_at_fork(after_in_child=_forget_pool_after_fork)
+
+
 def _pool():
     global _POOL
-    if _POOL is None or _POOL.broken:
+    if _POOL is None or _POOL.broken or _POOL.pid != os.getpid():
         _POOL = _Pool()
     if _MONITOR[0] is None or not _MONITOR[0].is_alive():
         _MONITOR[0] = threading.Thread(target=_watch, name="c18-watchdog", daemon=True)
